@@ -193,7 +193,8 @@ pub fn gen_program(ch: &mut Choices, h: &LineHeader) -> Vec<LOp> {
                     }
                 }
                 8 | 9 => LOp::Copy,
-                10 | 11 => LOp::AdvancePc(if big_adv { ch.biased(64) } else { ch.biased(10) }),
+                // (with big advances also operands next to 2^64: added to a non-zero op_index they pass it)
+                10 | 11 => LOp::AdvancePc(if big_adv { if ch.chance(64) { u64::MAX - ch.below(4) as u64 } else { ch.biased(64) } } else { ch.biased(10) }),
                 12 | 13 => LOp::AdvanceLine(match ch.below(4) {
                     0 => ch.biased_signed(64),
                     _ => ch.range(-20, 40),
@@ -347,7 +348,13 @@ fn collect_rows<'a>(program: gimli::IncompleteLineProgram<Rdr<'a>>, limit: usize
     let end;
     loop {
         match rows.next_row() {
-            Ok(Some((_, r))) => out.push(mrow(r)),
+            Ok(Some((hdr, r))) => {
+                // the row's own way to its file entry = the header's lookup of the row's file register
+                let via_row = r.file(hdr).map(|f| (f.directory_index(), f.timestamp(), f.size()));
+                let via_hdr = hdr.file(r.file_index()).map(|f| (f.directory_index(), f.timestamp(), f.size()));
+                ensure_eq!(via_row, via_hdr, "c04/rows/file-entry", "row {:?}", mrow(r));
+                out.push(mrow(r))
+            }
             Ok(None) => {
                 end = Ok(());
                 break;
@@ -466,6 +473,9 @@ pub fn check_case(c: &LineCase, cx: &mut Ctx) -> R {
             let ff: Vec<(u64, u16)> = gh.file_name_entry_format().iter().map(|f| (f.content_type.0 as u64, f.form.0)).collect();
             let want: Vec<(u64, u16)> = h.file_format.iter().map(|(c, f)| ((*c).min(0xffff), *f)).collect();
             ensure_eq!(ff, want, "c04/tables/file_name_entry_format");
+            let df: Vec<(u64, u16)> = gh.directory_entry_format().iter().map(|f| (f.content_type.0 as u64, f.form.0)).collect();
+            let want: Vec<(u64, u16)> = h.dir_format.iter().map(|(c, f)| ((*c).min(0xffff), *f)).collect();
+            ensure_eq!(df, want, "c04/tables/directory_entry_format");
             ensure_eq!(gh.file_has_md5(), h.file_format.iter().any(|(c, _)| *c == 5), "c04/tables/file_has_md5");
             ensure_eq!(gh.file_has_size(), h.file_format.iter().any(|(c, _)| *c == 4), "c04/tables/file_has_size");
             ensure_eq!(gh.file_has_timestamp(), h.file_format.iter().any(|(c, _)| *c == 3), "c04/tables/file_has_timestamp");
@@ -615,7 +625,9 @@ pub fn gen_tombstone_program(ch: &mut Choices, h: &LineHeader) -> Vec<LOp> {
         let at = ch.below(ops.len() + 1);
         let mut ins = vec![LOp::SetAddress(ch.pick(&[m, m - 1, m, 0, 1]), 0)];
         for _ in 0..ch.below(5) {
-            ins.push(match ch.below(4) {
+            ins.push(match ch.below(if h.version <= 4 { 5 } else { 4 }) {
+                // (the file table grows wherever DW_LNE_define_file stands: it is not a row register)
+                4 => LOp::DefineFile(vec![b't', b'0' + j as u8, b'a' + ch.below(20) as u8], ch.biased(4), ch.biased(16), ch.biased(16), 0),
                 0 => LOp::SetDiscriminator(1 + ch.below(9) as u64, 0),
                 1 if !emitters.is_empty() => emitters[ch.below(emitters.len())].clone(),
                 _ if !setters.is_empty() => setters[ch.below(setters.len())].clone(),
@@ -696,6 +708,26 @@ fn check_any_input(h: &LineHeader, big: bool, prog: &[u8], cx: &mut Ctx) -> R {
     }
     if m.used_tombstone {
         cx.label("any-input:tombstone-policy");
+    }
+    // files defined by the program: appended to the header's table in program order, wherever they stand
+    if matches!(m.end, LineEnd::Done) && h.version <= 4 {
+        let hdr = rows.header();
+        let got: Vec<(Vec<u8>, u64, u64, u64)> = hdr
+            .file_names()
+            .iter()
+            .skip(h.files.len())
+            .map(|f| {
+                let name = match f.path_name() {
+                    gimli::AttributeValue::String(s) => s.slice().to_vec(),
+                    _ => b"?".to_vec(),
+                };
+                (name, f.directory_index(), f.timestamp(), f.size())
+            })
+            .collect();
+        ensure_eq!(got, m.defined_files, "c04/any-input/defined-files", "files added by DW_LNE_define_file");
+        if !m.defined_files.is_empty() && m.used_tombstone {
+            cx.label("any-input:define_file in a program with tombstones");
+        }
     }
     // every sequence resumed on its own gives a run of the rows of the straight pass (also when sequences around it
     // were withheld entirely)
